@@ -103,7 +103,7 @@ def l5_local_bin_size_e2(tier='quick', case=None, seed=0):
         r, model, dt = T.solve(pre + [g], timeout_ms=60000, seed=seed)
         n += 1; tot += dt
         res.append((name, r, model))
-    out = dict(solver_calls=n, solver_s=round(tot, 3), paths=0, nontrivial=n + pts, detail='; '.join('%s: %s' % (a, r) for a, r, _ in res),
+    out = dict(solver_calls=n, solver_s=round(tot, 3), paths=0, nontrivial=n + pts, detail='; '.join('%s: %s' % (a, r) for a, r, _ in res) + ' | ' + T.cross_summary(),
                samples=[dict(lemma='L5_local_bin_size', kind='reachability witness', input=m0),
                         dict(lemma='L5_local_bin_size', kind='validation points (real fill_range step count, encoded expression vs python)', count=pts)])
     sat = [x for x in res if x[1] == 'sat']
